@@ -106,7 +106,7 @@ fn arg(args: &[String], name: &str) -> Option<String> {
 fn worker(args: &[String]) {
     let prop = arg(args, "--prop").expect("--prop");
     let vs: u64 = arg(args, "--verif-seed").and_then(|s| s.parse().ok()).unwrap_or(DEFAULT_SEED);
-    let raw_dir = arg(args, "--raw-dir").unwrap_or_else(|| "/verif/replays/raw".into());
+    let raw_dir = arg(args, "--raw-dir").unwrap_or_else(|| format!("{}/replays/raw", orchestrate::out()));
     let stdin = std::io::stdin();
     for line in stdin.lock().lines() {
         let Ok(line) = line else { break };
@@ -175,7 +175,7 @@ fn one(args: &[String]) {
     let prop = arg(args, "--prop").expect("--prop");
     let vs: u64 = arg(args, "--verif-seed").and_then(|s| s.parse().ok()).unwrap_or(DEFAULT_SEED);
     let index: u64 = arg(args, "--index").and_then(|s| s.parse().ok()).expect("--index");
-    let raw_dir = arg(args, "--raw-dir").unwrap_or_else(|| "/verif/replays/raw".into());
+    let raw_dir = arg(args, "--raw-dir").unwrap_or_else(|| format!("{}/replays/raw", orchestrate::out()));
     let rep = on_small_stack(move || one_run(&prop, vs, index, true, &raw_dir));
     println!("END {}", serde_json::to_string(&rep).unwrap());
 }
